@@ -77,7 +77,7 @@ def describe_rv(body, rv, depth=6):
     if k == 'un':
         return '%s(%s)' % (rv['op'], describe(body, rv['a'], depth - 1))
     if k == 'discr':
-        return 'discr(%s)' % pretty_place(body, rv['pl'])
+        return 'discr(%s)' % pretty_place(body, value_origin(body, rv['pl']))
     if k == 'agg':
         if rv.get('ak') == 'adt':
             name = '%s::%s' % (rv['adt'], rv['variant'])
@@ -86,6 +86,20 @@ def describe_rv(body, rv, depth=6):
             return name
         return '%s(%s)' % (rv.get('ak'), ', '.join(describe(body, o, depth - 1) for o in rv['ops']))
     return k
+
+
+def value_origin(body, pl, depth=4):
+    """A bare temporary that is a plain copy of another place denotes that place's value:
+    `_6 = copy _2; discriminant(_6)` tests _2."""
+    for _ in range(depth):
+        if pl['p'] or (1 <= pl['l'] <= body.arg_count) or body.local_name(pl['l']):
+            return pl
+        d = body.single_def(pl['l'])
+        if d and d[0] == 'stmt' and d[3]['rv']['k'] == 'use' and is_place(d[3]['rv']['op']):
+            pl = d[3]['rv']['op']['pl']
+            continue
+        return pl
+    return pl
 
 
 def pretty_place(body, pl):
@@ -114,7 +128,7 @@ def switch_info(body, bb):
         ds = body.defs().get(l, [])
         if len(ds) == 1 and ds[0][0] == 'stmt' and ds[0][3]['rv']['k'] == 'discr':
             rv = ds[0][3]['rv']
-            discr_place = pretty_place(body, rv['pl'])
+            discr_place = pretty_place(body, value_origin(body, rv['pl']))
             for val, name in rv['variants']:
                 labels[val] = name
     return describe(body, op), labels, discr_place
@@ -179,7 +193,9 @@ def explore(body, tracked=None, summaries=None, max_states=20000, on_call=None):
         if n_states[0] > max_states:
             raise RuntimeError('path explosion in %s' % body.path)
         if bb in blocks:
-            continue  # loop cut
+            # loop cut: report the iteration path that returns to an already visited block
+            results.append(PathResult('backedge:%d' % bb, env, decisions, blocks, ret, calls))
+            continue
         blocks = blocks + (bb,)
         blk = body.blocks[bb]
         env = dict(env)
@@ -199,6 +215,16 @@ def explore(body, tracked=None, summaries=None, max_states=20000, on_call=None):
                     env[p] = frozenset(['?'])
             if s['k'] == 'assign' and not s['lhs']['p'] and s['lhs']['l'] == 0:
                 ret = describe_rv(body, s['rv'])
+            if s['k'] == 'assign' and not s['lhs']['p']:
+                # path-local constant propagation for temporaries assigned on several branches
+                # (`matches!`, `&&`, `||` lower to `_t = const true` / `_t = const false` + switch)
+                ck = ('c', s['lhs']['l'])
+                rv = s['rv']
+                if rv['k'] == 'use' and is_const(rv['op']) and const_value(rv['op']) is not None \
+                        and len(body.defs().get(s['lhs']['l'], [])) > 1:
+                    env[ck] = int(const_value(rv['op'])) if not isinstance(const_value(rv['op']), float) else None
+                elif ck in env:
+                    del env[ck]
         t = blk['term']
         k = t['k']
         if k == 'return':
@@ -244,6 +270,15 @@ def explore(body, tracked=None, summaries=None, max_states=20000, on_call=None):
             desc, labels, dplace = switch_info(body, bb)
             targets = [(v, b) for v, b in t['targets']]
             listed = set(v for v, _ in targets)
+            sl = op_local(t['op'])
+            if sl is not None and env.get(('c', sl)) is not None:
+                cv = str(env[('c', sl)])
+                tgt = dict(targets).get(cv, t['otherwise'])
+                lab = labels.get(cv, cv) if cv in listed else 'otherwise'
+                if lab == 'otherwise' and not labels:
+                    lab = 'otherwise'
+                stack.append((tgt, env, decisions + ((bb, desc, lab if cv in listed else 'otherwise'),), blocks, calls, ret))
+                continue
             if dplace is not None and dplace in env and '?' not in env[dplace]:
                 cur = env[dplace]
                 name_of = labels
